@@ -56,7 +56,31 @@ def init_torch():
         torch.set_num_interop_threads(1)
     except RuntimeError:
         pass
+    _guard_numpy_svd()
     return torch
+
+
+def _guard_numpy_svd():
+    """numpy.linalg.svd (the library's recovery backend) can spin forever inside LAPACK on a matrix that holds NaN/Inf
+    (seen once in 13 200 histories: function_interpolate overflowed, the injected primary failure sent the NaN matrix
+    to numpy, and the worker hung in dgesdd where no alarm can reach it).  In every process of the simulator numpy's
+    SVD therefore refuses non-finite input at once with the LinAlgError it would otherwise raise at the end."""
+    import numpy as np
+    if getattr(np.linalg.svd, '_verif_guard', False):
+        return
+    real = np.linalg.svd
+
+    def svd(a, *args, **kw):
+        try:
+            ok = bool(np.isfinite(np.asarray(a)).all())
+        except Exception:
+            ok = True
+        if not ok:
+            raise np.linalg.LinAlgError('SVD did not converge (non-finite input; refused by the simulator before LAPACK)')
+        return real(a, *args, **kw)
+
+    svd._verif_guard = True
+    np.linalg.svd = svd
 
 
 # --------------------------------------------------------------------------
